@@ -22,7 +22,11 @@
 (***************************************************************************)
 EXTENDS Committees, Json
 
-CONSTANTS MaxV, GenSeed, NCases, Emit
+CONSTANTS MaxV, GenSeed, NCases, Emit,
+          MinV,        \* part A: smallest registry size
+          TwoStatus    \* part A: TRUE = every validator is active or inactive (the inactive kind -- not yet activated /
+                       \* exit epoch reached -- alternates with the index) and the coin tables are 4 structured ones for
+                       \* every size; FALSE = active / pending / exited independently and all coin tables up to 4 active
 
 VARIABLES c,      \* part A: 0; part B: case id (0 = start state)
           st      \* part A: [P, vals, piv, bit]; part B: [b1, b2] the enumerated sampling bytes (or << >>)
@@ -45,15 +49,16 @@ StatusVal(sx) ==
       [] sx = "X" -> [act |-> 0, exit |-> E0, eff |-> 32000]            \* exit epoch reached
 
 CoinTables(n) ==
-    IF n <= 4 THEN [0 .. n - 1 -> {0, 1}]
+    IF n <= 4 /\ ~TwoStatus THEN [0 .. n - 1 -> {0, 1}]
     ELSE {[pos \in 0 .. n - 1 |-> 0], [pos \in 0 .. n - 1 |-> 1], [pos \in 0 .. n - 1 |-> pos % 2],
           [pos \in 0 .. n - 1 |-> (pos \div 2) % 2]}
 
 InitA ==
     /\ c = 0
-    /\ \E nv \in 1 .. MaxV, spe \in 2 .. 4, maxc \in 1 .. 3, tcs \in 1 .. 2 :
-         \E ss \in [1 .. nv -> {"A", "P", "X"}] :
-            st = [P |-> PresetA(spe, maxc, tcs), vals |-> [k \in 1 .. nv |-> StatusVal(ss[k])],
+    /\ \E nv \in MinV .. MaxV, spe \in 2 .. 4, maxc \in 1 .. 3, tcs \in 1 .. 2 :
+         \E ss \in [1 .. nv -> IF TwoStatus THEN {"A", "I"} ELSE {"A", "P", "X"}] :
+            st = [P |-> PresetA(spe, maxc, tcs),
+                  vals |-> [k \in 1 .. nv |-> StatusVal(IF ss[k] = "I" THEN (IF k % 2 = 1 THEN "P" ELSE "X") ELSE ss[k])],
                   piv |-> -1, bit |-> << >>]
 
 NextA ==
